@@ -111,6 +111,10 @@ def run(ctx):
                 k += 1
                 s = ["1996", "0997", "7", "09994", "29990", "1001"][k % 6]
                 jobs.append((s, 4, pat, pre, tagflags[fi:] + tagflags[:fi], ctx.seed * 1009 + 500 + k, rx, suf))
+    # the legacy spellings of the build number ({build_no}, {bid}: four digits or more), behind calendar parts
+    for k, (pat, pre) in enumerate((("v{year}q{quarter}.{build_no}", "v2021q1."), ("{year}.{bid}", "2021."), ("{year}{month}.{build_no}", "202101."))):
+        for st in ("0997", "1997", "09997", "9990", "1001"):
+            jobs.append((st, min(steps, 40), pat, pre, [[]], ctx.seed * 1009 + 900 + k))
     n_chain_ev = 0
     for job, evs in zip(jobs, drive.pmap(_chain, jobs, hooks=False)):
         for b, n, gen, note in evs:
